@@ -302,6 +302,20 @@ v("C11", "benign-pre-timestep-extra-counter", "benign", APPLICATION_,
         self.num_executions = 0
         self._steps_seen = getattr(self, "_steps_seen", 0) + 1''', None, "another per-step counter")
 
+v("C11", "benign-dry-run-collects-a-trace-locally", "benign", CORE,
+  '''        request_key = request[0]
+        request_options = request[1:]
+
+        if request_key not in self.request_types:
+            return False''',
+  '''        request_key = request[0]
+        request_options = request[1:]
+        trail = []
+        trail.append(request_key)
+
+        if request_key not in self.request_types:
+            return False''', None, "scratch list created and filled inside the call")
+
 # ------------------------------------------------------------------------------------------------ C12
 v("C12", "zero-duration-no-disable", "break", BASE,
   '''        if self.config.shut_down_duration <= 0:
